@@ -31,6 +31,7 @@ structure G where
   s : Gp.State := Gp.init
   mb : Bool := false            -- mb flavor
   qsbr : Bool := false          -- qsbr flavor: model state is `q`
+  bp : Bool := false            -- bp flavor (model state `s`, same algorithm as memb)
   q : Qsbr.State := Qsbr.init
   waiting : Nat → Nat := fun _ => 0
   legacyMb : Bool := true       -- CONFIG_RCU_EMIT_LEGACY_MB
@@ -688,6 +689,140 @@ partial def qSynchronizeRcu (t : Nat) : M Unit := do
 -- thread top level: dispatch on CALL markers emitted by the scenario
 -- ------------------------------------------------------------------------------------------
 
+
+-- ------------------------------------------------------------------------------------------
+-- bp flavor (src/urcu-bp.c, include/urcu/static/urcu-bp.h): the two-pass algorithm of the
+-- memb flavor, automatic registration with signals blocked, no futex, no wait queue
+-- ------------------------------------------------------------------------------------------
+
+def BP_ATTEMPTS : Nat := Gen.BP_RCU_QS_ACTIVE_ATTEMPTS
+
+def bpRegister (t : Nat) : M Unit := do
+  P.expect "SIGMASK" ["block"]
+  P.expect "LOCK" ["init_lock"]       -- _urcu_bp_init()
+  P.expect "UNLOCK" ["init_lock"]
+  P.expect "LOCK" ["registry_lock"]
+  lab (.reg t)
+  modify fun g => { g with registry := t :: g.registry }
+  P.expect "UNLOCK" ["registry_lock"]
+  P.expect "SIGMASK" ["restore"]
+  cover "bp_register"
+
+def bpEnsureRegistered (t : Nat) : M Unit := do
+  let g ← P.get
+  if !(g.s.reg t) then bpRegister t
+
+def bpReadLock (t : Nat) : M Unit := do
+  bpEnsureRegistered t
+  cb
+  let g ← P.get
+  let tmp := g.rctr t
+  if tmp % PHASE == 0 then do
+    let v ← ld "gp.ctr"; let gv ← num v
+    let g ← P.get
+    if gv != g.gpctr then P.fail s!"LD gp.ctr {gv} but model has {g.gpctr}"
+    lab (.rLd t)
+    st (rword t) (toString gv)
+    modify fun g => { g with rctr := upd g.rctr t gv }
+    lab (.rSt t); lab (.flush t)
+    slave
+    lab (.rEnter t)
+    cover "lock_outer"
+  else do
+    st (rword t) (toString (tmp + 1))
+    modify fun g => { g with rctr := upd g.rctr t (tmp + 1) }
+    lab (.rInc t); lab (.flush t)
+    cover "lock_nested"
+
+def bpReadUnlock (t : Nat) : M Unit := do
+  let g ← P.get
+  let tmp := g.rctr t
+  if tmp % PHASE == 0 then P.fail "unlock with nesting 0"
+  slave
+  st (rword t) (toString (tmp - 1))
+  modify fun g => { g with rctr := upd g.rctr t (tmp - 1) }
+  if tmp % PHASE == 1 then do lab (.rUnlock t); lab (.flush t); cover "unlock_outer"
+  else do lab (.rDec t); lab (.flush t); cover "unlock_nested"
+  cb
+
+/-- thread exit: the pthread key destructor unregisters the thread -/
+def bpThreadExit (t : Nat) : M Unit := do
+  let g ← P.get
+  if g.s.reg t then do
+    P.expect "SIGMASK" ["block"]
+    P.expect "LOCK" ["registry_lock"]
+    lab (.unreg t)
+    modify fun g => { g with registry := g.registry.filter (· != t), curSnap := g.curSnap.filter (· != t),
+                             qs := g.qs.filter (· != t), rctr := upd g.rctr t 0 }
+    P.expect "UNLOCK" ["registry_lock"]
+    P.expect "SIGMASK" ["restore"]
+    P.expect "LOCK" ["init_lock"]     -- urcu_bp_exit(): refcount
+    P.expect "UNLOCK" ["init_lock"]
+    cover "bp_exit_unregister"
+
+partial def bpWaitForReaders (pass1 : Bool) (waitLoops : Nat) : M Unit := do
+  let wl := if waitLoops < BP_ATTEMPTS then waitLoops + 1 else waitLoops
+  let g ← P.get
+  scanList pass1 (if pass1 then g.registry else g.curSnap)
+  let g ← P.get
+  let input := if pass1 then g.registry else g.curSnap
+  if input.isEmpty then pure ()
+  else do
+    P.expect "UNLOCK" ["registry_lock"]
+    if wl ≥ BP_ATTEMPTS then do P.expect "POLL" []; cover "bp_poll" else P.expect "RELAX" []
+    P.expect "LOCK" ["registry_lock"]
+    bpWaitForReaders pass1 wl
+
+def bpSynchronizeRcu (_t : Nat) : M Unit := do
+  P.expect "SIGMASK" ["block"]
+  P.expect "LOCK" ["gp_lock"]
+  P.expect "LOCK" ["registry_lock"]
+  let g ← P.get
+  if g.registry.isEmpty then do
+    lab (.uStartEmpty false); cover "sync_empty_registry"
+  else do
+    master
+    lab (.uStart false)
+    if g.c.membarrier then forcedAll g.c.n
+    lab .uMbarRet
+    bpWaitForReaders true 0
+    mbEv
+    let g ← P.get
+    let nv := if (g.gpctr / PHASE) % 2 == 0 then g.gpctr + PHASE else g.gpctr - PHASE
+    st "gp.ctr" (toString nv)
+    modify fun g => { g with gpctr := nv }
+    lab .uFlip
+    mbEv
+    bpWaitForReaders false 0
+    lab .uP2Done
+    modify fun g => { g with registry := g.qs ++ g.registry, qs := [] }
+    master
+    let g ← P.get
+    if g.c.membarrier then forcedAll g.c.n
+    lab .uEnd
+    cover "sync_full_gp"
+  P.expect "UNLOCK" ["registry_lock"]
+  P.expect "UNLOCK" ["gp_lock"]
+  P.expect "SIGMASK" ["restore"]
+
+partial def threadBp (t : Nat) : M Unit := do
+  let e ← P.ev "CALL/…" fun e => some e
+  match e.op, e.args with
+  | "CALL", ["lock"] => do bpReadLock t; P.expect "RET" ["lock"]; threadBp t
+  | "CALL", ["unlock"] => do bpReadUnlock t; P.expect "RET" ["unlock"]; threadBp t
+  | "CALL", ["register"] => do bpEnsureRegistered t; P.expect "RET" ["register"]; threadBp t
+  | "CALL", ["sync"] => do bpSynchronizeRcu t; P.expect "RET" ["sync"]; threadBp t
+  | "READER_DONE", _ => do bpThreadExit t; threadBp t
+  | "DLD", _ => do
+      let g ← P.get
+      if g.s.rpc t == .cs then lab (.rRead t)
+      threadBp t
+  | "DST", _ => threadBp t
+  | "READER", _ => threadBp t
+  | "SPAWN", _ => threadBp t
+  | "THREAD_EXIT", _ => pure ()
+  | _, _ => P.fail s!"unexpected event outside an API call: {e.show}"
+
 partial def threadQ (t : Nat) : M Unit := do
   let e ← P.ev "CALL/…" fun e => some e
   match e.op, e.args with
@@ -731,6 +866,7 @@ def cfgLine (g : G) (ws : List String) : G :=
     | ["flavor", "mb"] => { g with mb := true, c := { g.c with membarrier := false, slaveFence := true } }
     | ["flavor", "memb"] => { g with mb := false }
     | ["flavor", "qsbr"] => { g with qsbr := true }
+    | ["flavor", "bp"] => { g with bp := true }
     | ["membarrier", "1"] => if g.mb then g else { g with c := { g.c with membarrier := true, slaveFence := false } }
     | ["membarrier", "0"] => { g with c := { g.c with membarrier := false, slaveFence := true } }
     | ["legacymb", "0"] => { g with legacyMb := false }
@@ -744,6 +880,6 @@ def main : IO UInt32 := do
     match ws with
     | "CFG" :: rest => .ok { r with g := cfgLine r.g rest }
     | _ => match parseEv ws with
-      | some e => feed (fun t g => if g.qsbr then (threadQ t).run else (thread t).run) r e
+      | some e => feed (fun t g => if g.qsbr then (threadQ t).run else if g.bp then (threadBp t).run else (thread t).run) r e
       | none => .error "unparsable line"
   loop (← IO.getStdin) f (fun r => showCov r.g.cov) ({ g := {} } : Run G) 0
